@@ -341,7 +341,10 @@ def pool_lines(ctx, tier, wanted, cov):
             m = importlib.import_module("props." + name)
             rng = random.Random("C14-%s-%d" % (name, ctx.seed)); n = 0; tg = time.time()
             for ln in m.gen_ops(rng, tier, ctx):
-                if ln.split(" ", 1)[0] in wanted: lines.append(ln); n += 1
+                # ops of other parts whose expected answer is the bit-exact behaviour of the generic C on inputs outside the
+                # routine's value contract (redc with an arbitrary inverse limb) are not kernel-equivalence questions: this
+                # part has its own contract-respecting k_redc_1 lines
+                if ln.split(" ", 1)[0] in wanted and ln.split(" ", 1)[0] not in ("mpn_redc_1", "mpn_redc_2", "mpn_redc_n"): lines.append(ln); n += 1
                 if time.time() - tg > (40 if tier == "quick" else 300): break
             srcs["props." + name] = n
         except Exception as e:
